@@ -151,7 +151,8 @@ CLAIMED = {
         "text": "Coq theorems (props/C09.v) over find_boundary / rom_solve_power_from_stats regenerated from mean.py: loop exit and "
                 "exhaustion of _find_boundary; the three solver modes; the n_obs bracket leaves each group more than one observation "
                 "for every ratio > 0; under the brentq contract the solved effect / n_obs reproduces the target power, lies in the "
-                "bracket (sign follows the alternative); ceil(root) is the minimal n given monotone power. Row assembly by oracle only",
+                "bracket (sign follows the alternative); ceil(root) is the minimal n given monotone power; the rows (template "
+                "translation of the loops) are the product effect sizes x n_obs in input order with abs/rel related by the mean",
         "note": "trusted: Coq kernel, stdlib real axioms, translator (incl. _find_boundary loop pattern), brentq contract, C08 "
                 "monotonicity partial for minimality",
         "technique": "Coq proof over translator-generated model with solver-contract hypothesis; exact control-flow differential; "
